@@ -87,6 +87,14 @@ def run_property(a, seed, run_contracts):
     from . import twin, probes
     twin.install(a.repo)
     probe_results = probes.apply()
+    # import both packages once in the parent; workers are forked and inherit them
+    for m_ in ('optiland.optic', 'optiland.optimization', 'optiland.tolerancing', 'optiland.analysis',
+               'optiland.wavefront', 'optiland.psf', 'optiland.mtf', 'optiland.zernike', 'optiland.fileio'):
+        try:
+            twin.real(m_)
+            twin.sym(m_)
+        except Exception as ex:      # a module that does not import is an engine limit for its contracts only
+            print('note: import of %s failed: %s: %s' % (m_, type(ex).__name__, str(ex)[:200]))
     mod = importlib.import_module(modname)
     names = [n for n, ct in vc.CONTRACTS.items() if prop in ct.props]
     if a.only:
